@@ -143,6 +143,11 @@ def _merge(a, b):
         return ('r', a, b[2] + 1)
     if a == b and pw(a) == 1 and ka == 's':
         return ('r', a, 2)
+    if ka == 's' and kb == 's' and b[2] > 0 and a[2] == 0 and a[3] == a[1].width == b[2] and b[1].kind == 'op' \
+            and a[1].kind == 'op' and b[1].name in NARROWABLE:
+        # a is the narrowed form of the low part of b's term: re-join  (inverse of canon())
+        if canon((('s', b[1], 0, b[2]),)) == (a,):
+            return ('s', b[1], 0, b[2] + b[3])
     return None
 
 
@@ -244,6 +249,7 @@ def split_at(bv, cuts):
 
 
 RING_OPS = ('sum', 'mul')
+NARROWABLE = ('sum', 'mul', 'shl', 'lshr', 'ashr')
 
 
 def canon(bv):
@@ -344,6 +350,16 @@ def icmp(pred, a, b):
         return const(1, _eval_icmp(pred, const_val(a), const_val(b), w))
     if a == b:
         return const(1, 1 if pred in ('eq', 'sle', 'ule') else 0)
+    if pred == 'ult' and is_const(a):
+        v = const_val(a) + 1
+        if v > 1 and v & (v - 1) == 0 and v < (1 << w):
+            k = v.bit_length() - 1                 # 2^k - 1 <u x  <=>  x[k:] != 0
+            return icmp('ne', slice_(b, k, w - k), const(w - k, 0))
+    if is_const(a) and len(b) > 1:
+        a = tuple(split_at(a, sorted(boundaries(b))))
+        a = tuple(x[0] for x in a)
+    elif is_const(b) and len(a) > 1:
+        b = tuple(x[0] for x in split_at(b, sorted(boundaries(a))))
     if pred in ('eq', 'ne', 'slt', 'sle', 'ult', 'ule') and len(a) > 1 and len(b) > 1:
         # identical low-order pieces do not influence any of these predicates
         k = 0
@@ -351,6 +367,7 @@ def icmp(pred, a, b):
             k += 1
         if k:
             return icmp(pred, norm(a[k:]), norm(b[k:]))
+        a, b = norm(a), norm(b)
         # common zero / sign extension:  zext preserves unsigned order and turns signed into unsigned order,
         # sext preserves both orders
         wa = pw(a[0])
@@ -387,7 +404,7 @@ def icmp(pred, a, b):
     if pred == 'sle' and is_const(a) and const_val(a) == 0:              # 0 <=s x == not sign
         return not_(topbit(b))
     if pred == 'ne':
-        return not_(raw_op('eq', 1, a, b))
+        return not_(icmp('eq', a, b))
     if pred == 'eq' and w == 1:
         # 1-bit equality is xnor
         return not_(xor(a, b))
@@ -936,6 +953,9 @@ def _lin_build(d, k, w):
     items.sort(key=lambda kv: kv[0])
     if len(items) == 1 and k == 0 and items[0][1][1] == 1:
         return items[0][1][0]
+    if len(items) == 1 and k == (1 << (w - 1)) and items[0][1][1] == 1 and w > 1:
+        x = items[0][1][0]
+        return cat(slice_(x, 0, w - 1), not_(topbit(x)))   # x + 2^(w-1) = x ^ signbit
     if len(items) == 1 and k == 0 and items[0][1][1] == _mask(w) and w > 1:
         z = items[0][1][0]
         if len(z) == 2 and pw(z[0]) == 1 and _zero(z[1]):
